@@ -13,17 +13,90 @@ using stc::History;
 
 struct Gen { bool contiguous, allow_prune_f, small_labels; };
 
+// ---- infinite filtration values.  The shared generator draws values on the grid 0, 0.25, .., 4; here the largest grid value (one
+// draw in 17) stands for +infinity.  to_inf is a strictly increasing bijection between the two value sets, so a generated history
+// stays admissible (faces <= cofaces, same comparisons, same pruned sets) when every value and threshold is mapped; the generator
+// continues from a model whose infinite values are mapped back (shadow).
+inline double to_inf(double v) { return v == 4.0 ? std::numeric_limits<double>::infinity() : v; }
+inline double from_inf(double v) { return v == std::numeric_limits<double>::infinity() ? 4.0 : v; }
+inline void lift(History& h) {
+  for (auto& op : h.ops) {
+    op.v = to_inf(op.v);
+    for (auto& x : op.gv) x = to_inf(x);
+    for (auto& e : op.ge) std::get<2>(e) = to_inf(std::get<2>(e));
+    for (auto& e : op.stream) e.second = to_inf(e.second);
+  }
+}
+inline ComplexModel shadow(const ComplexModel& M) { ComplexModel S = M; for (auto& kv : S.cx) kv.second = from_inf(kv.second); return S; }
+inline bool has_inf(const ComplexModel& M) { for (auto& kv : M.cx) if (kv.second == std::numeric_limits<double>::infinity()) return true; return false; }
+inline History gen_history(vh::Rng& r, const Gen& g, int nmax, const ComplexModel* init, const std::vector<long>* uni, int nmin) {
+  ComplexModel S; if (init) S = shadow(*init);
+  History h = stc::generate_history(r, g.contiguous, nmax, g.allow_prune_f, g.small_labels, init ? &S : nullptr, uni, nmin);
+  lift(h);
+  return h;
+}
+
+// ---- what a user attaches to the simplices: keys (Options::store_key) and Simplex_data (here std::vector<int>).  Both are part
+// of what a copy / move / swap carries over (documented for the copy and move constructors), neither is serialised.
+template <class ST>
+struct Tags {
+  static constexpr bool has_key = ST::Options::store_key;
+  static constexpr bool has_data = std::is_same<typename ST::Simplex_data, std::vector<int>>::value;
+  static constexpr bool any = has_key || has_data;
+  std::map<stc::Simplex, uint64_t> of;   // simplex -> hash from which key and data are derived
+  static unsigned key_of(uint64_t h) { return (unsigned)(h % 200); }   // fits the 8 bit keys of Opt_mini / Opt_low_full
+  static std::vector<int> data_of(uint64_t h) { return std::vector<int>(1 + (h >> 8) % 40, (int)(h % 1000)); }
+  // (re)writes key and data of every simplex of st
+  void assign(vh::Case& c, ST& st, uint64_t salt) {
+    of.clear();
+    if constexpr (any) {
+      for (auto sh : st.complex_simplex_range()) {
+        stc::Simplex w = stc::word(st, sh);
+        uint64_t h = salt; for (long x : w) h = vh::hash_mix(h, (uint64_t)x);
+        of[w] = h;
+        if constexpr (has_key) st.assign_key(sh, (typename ST::Simplex_key)key_of(h));
+        if constexpr (has_data) st.simplex_data(sh) = data_of(h);
+      }
+      c.count("op.assign_tags");
+    }
+  }
+  // every simplex of st carries what was attached to it
+  template <class ST2>
+  bool check(vh::Case& c, const ST2& st, const std::string& sig, const std::string& pfx, bool with_data = true) const {
+    if constexpr (ST2::Options::store_key && has_key) {
+      size_t n = 0;
+      for (auto sh : st.complex_simplex_range()) {
+        auto it = of.find(stc::word(st, sh)); ++n;
+        if (it == of.end()) { c.violation(pfx + "tags.simplex", sig, "simplex " + oracle::show(stc::word(st, sh)) + " had no key attached"); return false; }
+        if ((unsigned)st.key(sh) != key_of(it->second)) { c.violation(pfx + "tags.key", sig, "key(" + oracle::show(it->first) + ")=" + vh::str((unsigned)st.key(sh)) + " attached " + vh::str(key_of(it->second))); return false; }
+      }
+      c.count("cmp.keys");
+      if (n != of.size()) { c.violation(pfx + "tags.simplex", sig, vh::str(n) + " simplices, keys were attached to " + vh::str(of.size())); return false; }
+    }
+    if constexpr (std::is_same<ST2, ST>::value && has_data) {
+      if (with_data) {
+        for (auto sh : st.complex_simplex_range()) {
+          auto it = of.find(stc::word(st, sh));
+          if (it == of.end() || st.simplex_data(sh) != data_of(it->second)) { c.violation(pfx + "tags.data", sig, "simplex_data(" + oracle::show(stc::word(st, sh)) + ") is not what was attached"); return false; }
+        }
+        c.count("cmp.simplex_data");
+      }
+    }
+    return true;
+  }
+};
+
 template <class ST>
 bool build(vh::Case& c, ST& st, ComplexModel& M, const History& h, const std::string& who) {
   for (auto& op : h.ops) { c.log("[" + who + "] " + op.show()); if (!stc::apply_op(c, st, M, op, who + ".")) return false; }
   return true;
 }
 
-// drive `a` through a continuation history while checking after every step that `other` still shows `Mother`
-template <class ST>
-bool diverge(vh::Case& c, ST& a, ComplexModel& Ma, const ST& other, const ComplexModel& Mother, const std::vector<long>& uni,
+// drive `a` through a continuation history while checking after every step that `other` still shows `Mother` (and its tags)
+template <class ST, class STO, class TG>
+bool diverge(vh::Case& c, ST& a, ComplexModel& Ma, const STO& other, const ComplexModel& Mother, const TG& Tother, const std::vector<long>& uni,
              const Gen& g, const std::string& who, const std::string& sig, int nmax = 12) {
-  History h = stc::generate_history(c.rng, g.contiguous, nmax, g.allow_prune_f, g.small_labels, &Ma, &uni, 3);
+  History h = gen_history(c.rng, g, nmax, &Ma, &uni, 3);
   for (auto& op : h.ops) {
     c.log("[" + who + "] " + op.show());
     if (!stc::apply_op(c, a, Ma, op, who + ".")) return false;
@@ -32,7 +105,34 @@ bool diverge(vh::Case& c, ST& a, ComplexModel& Ma, const ST& other, const Comple
     if (!stc::check_filtration_range(c, a, Ma, sig + ",mutated_object", "mutated.")) return false;
     if (!stc::full_check(c, other, Mother, uni, sig + ",other_object_after_mutation", true, "independence.")) return false;
     if (!stc::check_filtration_range(c, other, Mother, sig + ",other_object_after_mutation", "independence.")) return false;
+    if ((const void*)&a != (const void*)&other && !Tother.check(c, other, sig + ",other_object_after_mutation", "independence.")) return false;
     c.count("steps.divergent");
+  }
+  return true;
+}
+
+// X and Y are independent objects: mutate each (the other one re-checked after every step, with freshly attached tags), destroy one
+template <class STX, class STY>
+bool two_way(vh::Case& c, std::unique_ptr<STX>& X, ComplexModel& MX, std::unique_ptr<STY>& Y, ComplexModel& MY, const std::vector<long>& uni,
+             const Gen& gx, const Gen& gy, const std::string& sig) {
+  vh::Rng& r = c.rng;
+  Tags<STX> TX; Tags<STY> TY;
+  auto dx = [&](int nmax = 12) { TY.assign(c, *Y, r.next()); return diverge(c, *X, MX, *Y, MY, TY, uni, gx, "X", sig, nmax); };
+  auto dy = [&](int nmax = 12) { TX.assign(c, *X, r.next()); return diverge(c, *Y, MY, *X, MX, TX, uni, gy, "Y", sig, nmax); };
+  // attaching keys / data to the simplices of one object leaves those of the other alone
+  TX.assign(c, *X, r.next()); TY.assign(c, *Y, r.next());
+  if (!TX.check(c, *X, sig + ",other_object_after_tagging", "independence.") || !TY.check(c, *Y, sig + ",object_after_tagging", "independence.")) return false;
+  if (r.chance(1, 2)) { if (!dx() || !dy()) return false; } else { if (!dy() || !dx()) return false; }
+  if (r.chance(1, 2)) {
+    c.log("destroy X"); TY.assign(c, *Y, r.next()); X.reset();
+    if (!stc::full_check(c, *Y, MY, uni, sig + ",after_destroying_other", true, "independence.")) return false;
+    if (!TY.check(c, *Y, sig + ",after_destroying_other", "independence.")) return false;
+    if (!diverge(c, *Y, MY, *Y, MY, TY, uni, gy, "Y", sig, 6)) return false;
+  } else {
+    c.log("destroy Y"); TX.assign(c, *X, r.next()); Y.reset();
+    if (!stc::full_check(c, *X, MX, uni, sig + ",after_destroying_other", true, "independence.")) return false;
+    if (!TX.check(c, *X, sig + ",after_destroying_other", "independence.")) return false;
+    if (!diverge(c, *X, MX, *X, MX, TX, uni, gx, "X", sig, 6)) return false;
   }
   return true;
 }
@@ -41,7 +141,7 @@ template <class Options>
 void run_case(vh::Case& c, const Gen& g, const std::string& optname) {
   typedef Gudhi::Simplex_tree<Options> ST;
   vh::Rng& r = c.rng;
-  History ha = stc::generate_history(r, g.contiguous, 30, g.allow_prune_f, g.small_labels, nullptr, nullptr, 2);
+  History ha = gen_history(r, g, 30, nullptr, nullptr, 2);
   const std::vector<long> uni = ha.universe;
   auto A = std::make_unique<ST>();
   ComplexModel MA;
@@ -52,15 +152,17 @@ void run_case(vh::Case& c, const Gen& g, const std::string& optname) {
   ComplexModel MB;
   int bkind = (int)r.below(3);
   if (bkind > 0) {
-    History hb = stc::generate_history(r, g.contiguous, bkind == 1 ? 4 : 30, g.allow_prune_f, g.small_labels, nullptr, &uni, 1);
+    History hb = gen_history(r, Gen{g.contiguous, g.allow_prune_f, g.small_labels}, bkind == 1 ? 4 : 30, nullptr, &uni, 1);
     if (!build(c, *B, MB, hb, "B")) return;
   }
   const bool stale = A->upper_bound_dimension() > MA.dimension();
   if (stale) c.count("state.source_upper_bound_stale");
-  const std::string st_sig = std::string(stale ? ",src_bound_stale" : "") + (MA.cx.empty() ? ",src_empty" : "");
-  int scenario = (int)r.below(9);
+  const bool inf_src = Options::store_filtration && has_inf(MA);
+  if (inf_src) c.count("state.source_has_infinite_value");
+  const std::string st_sig = std::string(stale ? ",src_bound_stale" : "") + (MA.cx.empty() ? ",src_empty" : "") + (inf_src ? ",src_has_inf" : "");
+  int scenario = (int)r.below(10);
   static const char* names[] = {"copy_ctor", "copy_assign", "self_copy_assign", "move_ctor", "move_assign", "swap",
-                                "serialize", "text_io", "self_move_assign"};
+                                "serialize", "text_io", "self_move_assign", "self_swap"};
   std::string sig = std::string("scenario=") + names[scenario] + st_sig;
   c.log("scenario " + sig + " target=" + (bkind == 0 ? "empty" : bkind == 1 ? "small" : "large"));
   c.count(std::string("scenario.") + names[scenario]);
@@ -71,15 +173,9 @@ void run_case(vh::Case& c, const Gen& g, const std::string& optname) {
   if (warmA) { if (!stc::check_filtration_range(c, *A, MA, sig + ",source_before", "pre.")) return; c.count("state.source_cache_warm"); }
   if (warmB) { if (!stc::check_filtration_range(c, *B, MB, sig + ",target_before", "pre.")) return; c.count("state.target_cache_warm"); }
   sig += std::string(warmA ? ",src_cache_warm" : "") + (warmB ? ",dst_cache_warm" : "");
-
-  auto two_way = [&](std::unique_ptr<ST>& X, ComplexModel& MX, std::unique_ptr<ST>& Y, ComplexModel& MY) -> bool {
-    // X and Y should be equal-but-independent or simply independent; mutate each, destroy in random order
-    if (r.chance(1, 2)) { if (!diverge(c, *X, MX, *Y, MY, uni, g, "X", sig)) return false; if (!diverge(c, *Y, MY, *X, MX, uni, g, "Y", sig)) return false; }
-    else { if (!diverge(c, *Y, MY, *X, MX, uni, g, "Y", sig)) return false; if (!diverge(c, *X, MX, *Y, MY, uni, g, "X", sig)) return false; }
-    if (r.chance(1, 2)) { c.log("destroy X"); X.reset(); if (!stc::full_check(c, *Y, MY, uni, sig + ",after_destroying_other", true, "independence.")) return false; if (!diverge(c, *Y, MY, *Y, MY, uni, g, "Y", sig, 6)) return false; }
-    else { c.log("destroy Y"); Y.reset(); if (!stc::full_check(c, *X, MX, uni, sig + ",after_destroying_other", true, "independence.")) return false; if (!diverge(c, *X, MX, *X, MX, uni, g, "X", sig, 6)) return false; }
-    return true;
-  };
+  // keys / simplex data attached to every simplex of source and target before the operation under test
+  Tags<ST> TA, TB, TE;
+  TA.assign(c, *A, r.next()); TB.assign(c, *B, r.next());
 
   switch (scenario) {
     case 0: {  // copy constructor
@@ -87,20 +183,24 @@ void run_case(vh::Case& c, const Gen& g, const std::string& optname) {
       ComplexModel MC = MA;
       if (!stc::full_check(c, *C, MC, uni, sig + ",copy", true, "copy.")) return;
       if (!stc::check_filtration_range(c, *C, MC, sig + ",copy", "copy.")) return;
+      if (!TA.check(c, *C, sig + ",copy", "copy.")) return;
       if (!stc::full_check(c, *A, MA, uni, sig + ",source_after", true, "source.")) return;
       if (!stc::check_filtration_range(c, *A, MA, sig + ",source_after", "source.")) return;
+      if (!TA.check(c, *A, sig + ",source_after", "source.")) return;
       if (!(*C == *A)) { c.violation("copy.operator_eq", sig, "copy != source"); return; }
-      if (!two_way(A, MA, C, MC)) return;
+      if (!two_way(c, A, MA, C, MC, uni, g, g, sig)) return;
       break;
     }
     case 1: {  // copy assignment onto empty / smaller / larger
       *B = *A; MB = MA;
       if (!stc::full_check(c, *B, MB, uni, sig + ",copy", true, "copy.")) return;
       if (!stc::check_filtration_range(c, *B, MB, sig + ",copy", "copy.")) return;
+      if (!TA.check(c, *B, sig + ",copy", "copy.")) return;
       if (!stc::full_check(c, *A, MA, uni, sig + ",source_after", true, "source.")) return;
       if (!stc::check_filtration_range(c, *A, MA, sig + ",source_after", "source.")) return;
+      if (!TA.check(c, *A, sig + ",source_after", "source.")) return;
       if (!(*B == *A)) { c.violation("copy.operator_eq", sig, "assigned copy != source"); return; }
-      if (!two_way(A, MA, B, MB)) return;
+      if (!two_way(c, A, MA, B, MB, uni, g, g, sig)) return;
       break;
     }
     case 2: {  // self assignment
@@ -108,7 +208,8 @@ void run_case(vh::Case& c, const Gen& g, const std::string& optname) {
       *A = ref;
       if (!stc::full_check(c, *A, MA, uni, sig + ",self", true, "self.")) return;
       if (!stc::check_filtration_range(c, *A, MA, sig + ",self", "self.")) return;
-      if (!diverge(c, *A, MA, *A, MA, uni, g, "A", sig)) return;
+      if (!TA.check(c, *A, sig + ",self", "self.")) return;
+      if (!diverge(c, *A, MA, *A, MA, TE, uni, g, "A", sig)) return;
       break;
     }
     case 3: {  // move constructor
@@ -116,20 +217,22 @@ void run_case(vh::Case& c, const Gen& g, const std::string& optname) {
       ComplexModel MC = MA; ComplexModel ME;
       if (!stc::full_check(c, *C, MC, uni, sig + ",moved_to", true, "move.")) return;
       if (!stc::check_filtration_range(c, *C, MC, sig + ",moved_to", "move.")) return;
+      if (!TA.check(c, *C, sig + ",moved_to", "move.")) return;
       if (!stc::full_check(c, *A, ME, uni, sig + ",moved_from", true, "moved_from.")) return;
       if (!stc::check_filtration_range(c, *A, ME, sig + ",moved_from", "moved_from.")) return;
       ST fresh; if (!(*A == fresh)) { c.violation("moved_from.operator_eq", sig, "moved-from tree != empty tree"); return; }
-      if (!two_way(A, ME, C, MC)) return;
+      if (!two_way(c, A, ME, C, MC, uni, g, g, sig)) return;
       break;
     }
     case 4: {  // move assignment
       *B = std::move(*A); MB = MA; ComplexModel ME;
       if (!stc::full_check(c, *B, MB, uni, sig + ",moved_to", true, "move.")) return;
       if (!stc::check_filtration_range(c, *B, MB, sig + ",moved_to", "move.")) return;
+      if (!TA.check(c, *B, sig + ",moved_to", "move.")) return;
       if (!stc::full_check(c, *A, ME, uni, sig + ",moved_from", true, "moved_from.")) return;
       if (!stc::check_filtration_range(c, *A, ME, sig + ",moved_from", "moved_from.")) return;
       ST fresh; if (!(*A == fresh)) { c.violation("moved_from.operator_eq", sig, "moved-from tree != empty tree"); return; }
-      if (!two_way(A, ME, B, MB)) return;
+      if (!two_way(c, A, ME, B, MB, uni, g, g, sig)) return;
       break;
     }
     case 5: {  // swap
@@ -137,9 +240,11 @@ void run_case(vh::Case& c, const Gen& g, const std::string& optname) {
       swap(*A, *B); std::swap(MA, MB);
       if (!stc::full_check(c, *A, MA, uni, sig + ",swapped", true, "swap.")) return;
       if (!stc::check_filtration_range(c, *A, MA, sig + ",swapped", "swap.")) return;
+      if (!TB.check(c, *A, sig + ",swapped", "swap.")) return;
       if (!stc::full_check(c, *B, MB, uni, sig + ",swapped", true, "swap.")) return;
       if (!stc::check_filtration_range(c, *B, MB, sig + ",swapped", "swap.")) return;
-      if (!two_way(A, MA, B, MB)) return;
+      if (!TA.check(c, *B, sig + ",swapped", "swap.")) return;
+      if (!two_way(c, A, MA, B, MB, uni, g, g, sig)) return;
       break;
     }
     case 8: {  // self move assignment
@@ -147,6 +252,17 @@ void run_case(vh::Case& c, const Gen& g, const std::string& optname) {
       *A = std::move(ref);
       if (!stc::full_check(c, *A, MA, uni, sig + ",self", true, "self.")) return;
       if (!stc::check_filtration_range(c, *A, MA, sig + ",self", "self.")) return;
+      if (!TA.check(c, *A, sig + ",self", "self.")) return;
+      break;
+    }
+    case 9: {  // self swap
+      using std::swap;
+      ST& ref = *A;
+      swap(*A, ref);
+      if (!stc::full_check(c, *A, MA, uni, sig + ",self", true, "self.")) return;
+      if (!stc::check_filtration_range(c, *A, MA, sig + ",self", "self.")) return;
+      if (!TA.check(c, *A, sig + ",self", "self.")) return;
+      if (!diverge(c, *A, MA, *A, MA, TE, uni, g, "A", sig, 6)) return;
       break;
     }
     case 6: {  // binary serialisation
@@ -165,7 +281,7 @@ void run_case(vh::Case& c, const Gen& g, const std::string& optname) {
         if (!stc::full_check(c, D, MD, uni, sig + ",deserialized", true, "deserialize.")) return;
       if (!stc::check_filtration_range(c, D, MD, sig + ",deserialized", "deserialize.")) return;
         if (!(D == *A)) { c.violation("deserialize.operator_eq", sig, "deserialized tree != source"); return; }
-        if (!diverge(c, D, MD, *A, MA, uni, g, "D", sig, 6)) return;
+        if (!diverge(c, D, MD, *A, MA, TA, uni, g, "D", sig, 6)) return;
       }
       // wrong lengths: every truncation / extension must be refused by an exception, without reading outside the buffer
       std::vector<long> deltas;
@@ -204,10 +320,12 @@ void run_case(vh::Case& c, const Gen& g, const std::string& optname) {
         ss >> T;
         ComplexModel MT = MA;
         c.count("cmp.text_io");
+        if (inf_src) c.count("cmp.text_io_with_infinite_value");
+        if (T.num_simplices() != A->num_simplices()) { c.violation("text_io.num_simplices", sig + ",reread", "operator>> rebuilt " + vh::str(T.num_simplices()) + " of the " + vh::str(A->num_simplices()) + " simplices written by operator<<"); return; }
         if (!stc::full_check(c, T, MT, uni, sig + ",reread", true, "text_io.")) return;
       if (!stc::check_filtration_range(c, T, MT, sig + ",reread", "text_io.")) return;
         if (!(T == *A)) { c.violation("text_io.operator_eq", sig, "re-read tree != source"); return; }
-        if (!diverge(c, T, MT, *A, MA, uni, g, "T", sig, 6)) return;
+        if (!diverge(c, T, MT, *A, MA, TA, uni, g, "T", sig, 6)) return;
       } else {
         c.count("skip.text_io_without_filtration");
       }
